@@ -52,6 +52,13 @@ Definition gomap_eq (a b : gomap) : bool :=
   Nat.eqb (List.length a) (List.length b) &&
   forallb (fun e => match get_exact (fst e) b with Some vs => vlist_eq (snd e) vs | None => false end) a.
 
+Fixpoint pseudo_block_first (seen_regular : bool) (l : list field) : bool :=
+  match l with
+  | [] => true
+  | f :: r => if is_pseudo (fname f) then negb seen_regular && pseudo_block_first seen_regular r
+              else pseudo_block_first true r
+  end.
+
 Definition model_req (c : case) : option (list field * list field * list field) :=
   match c with
   | WReq me sc ho ok ur pr hd gz cl tr _ =>
@@ -65,10 +72,10 @@ Definition check_case (c : case) : bool :=
     match res, model_req c with
     | None, None => true
     | Some fs, Some (pre, mid, post) =>
+      (* same fields (as a multiset: neither the iteration order of req.Header nor the order among
+         the pseudo-header fields is part of the property), pseudo-header fields first *)
       let l := fields_of fs in
-      let n1 := List.length pre in
-      let n2 := List.length mid in
-      flist_eq (firstn n1 l) pre && fperm (firstn n2 (skipn n1 l)) mid && flist_eq (skipn (n1 + n2) l) post
+      fperm l (pre ++ mid ++ post) && pseudo_block_first false l
     | _, _ => false
     end
   | WRsp st hd res =>
